@@ -10,6 +10,7 @@ import (
 	"runtime/debug"
 	"sort"
 	"strconv"
+	"strings"
 	"time"
 )
 
@@ -330,7 +331,23 @@ func runProperty(pr *Property, opt LoadOptions) (res runResult) {
 		return runResult{Err: fmt.Errorf("only %d module packages loaded (expected >= 5)", len(p.Pkgs))}
 	}
 	c := &RuleCtx{P: p, Prop: pr.ID, Min: map[string]int{}}
-	pr.Run(c)
+	func() {
+		// an internal error while evaluating the rules means an anchored construct has a shape the
+		// rules do not recognise: reported as an undecided obligation (fails the check), never as "held"
+		defer func() {
+			if r := recover(); r != nil {
+				st := string(debug.Stack())
+				if i := strings.Index(st, "panic("); i >= 0 {
+					st = st[i:]
+				}
+				if len(st) > 900 {
+					st = st[:900]
+				}
+				c.Undecided("INTERNAL", pr.ID, "rule evaluation", nil, fmt.Sprintf("the analyser could not process a construct anchored by this property (unrecognised shape): %v; %s", r, strings.ReplaceAll(st, "\n", " | ")))
+			}
+		}()
+		pr.Run(c)
+	}()
 	sort.SliceStable(c.Obs, func(i, j int) bool { return c.Obs[i].Key < c.Obs[j].Key })
 	return runResult{Obs: c.Obs, Min: c.Min, Stats: p.Stats, Note: c.Note}
 }
